@@ -755,6 +755,39 @@ def eval_line(line, timeout=10):
         signal.alarm(0)
 
 
+# --------------------------------------------------------------------------
+# fresh <module,module,...|-> <enc(line)> [<enc(line)> ...]: evaluate the lines, in order, in a NEW interpreter
+# (nothing constructed, cached or configured before) and answer the output of the LAST one.  For behaviour that
+# may depend on what the process did first (module-level caches, lazily built parsers); the model, being pure,
+# evaluates the last line alone.
+# --------------------------------------------------------------------------
+def op_fresh(t):
+    import subprocess
+    from urllib.parse import unquote
+    mods = t.next()
+    lines = []
+    while not t.done():
+        lines.append(unquote(t.next()))
+    code = ("import sys; sys.path.insert(0, %r)\n"
+            "import impl\n"
+            "for m in %r.split(','):\n"
+            "    if m and m != '-': __import__(m)\n"
+            "out = ''\n"
+            "for l in %r:\n"
+            "    out = impl.eval_line(l, 10)\n"
+            "print(out)\n" % (os.path.dirname(os.path.abspath(__file__)), mods, lines))
+    r = subprocess.run([sys.executable, "-c", code], capture_output=True, text=True, timeout=60,
+                       env=dict(os.environ))
+    if r.returncode != 0:
+        return "EXC fresh-process " + r.stderr.strip().split("\n")[-1][:80].replace(" ", "_")
+    return r.stdout.rstrip("\n").split("\n")[-1]
+
+
+register("fresh", op_fresh)
+
+
 if __name__ == "__main__":
     for line in sys.stdin:
         print(eval_line(line.rstrip("\n")))
+
+
